@@ -164,11 +164,15 @@ Definition v_pow (x y : pyv) : res pyv :=
       | None => Err ErrRaise
       end
   | PUnit u _, PNum b ib =>
-      if ib then match as_int b with
-                 | Some n => match u_pow u n with Ok r => Ok (PUnit r None) | Err e => Err e end
-                 | None => Err ErrRaise
-                 end
-      else Err ErrRaise
+      match as_int b with
+      | Some n =>
+          (* a Python float exponent takes the inverse-integer branch: 1.0 and -1.0 act like the
+             integers (rounded = +-1), any other integral float is refused *)
+          if ib || (n =? 1) || (n =? -1)
+          then match u_pow u n with Ok r => Ok (PUnit r None) | Err e => Err e end
+          else Err ErrRaise
+      | None => Err ErrRaise      (* 1/n roots: outside the model grammar *)
+      end
   | _, PUnit _ _ => Err ErrRaise
   end.
 
